@@ -838,7 +838,8 @@ Proof.
   destruct (target_In b a s Ht) as [_ Ha].
   pose proof (one_configure a t s (target_VInv0 b a s Hinv Ht) Ha) as Hone.
   destruct (lift_done a _ b s _ tt (so_configure a t) Hnd Hinv Ht Hone) as (b' & H1 & H2 & H3 & H4).
-  exists b', (configured a (v_style s) t). unfold configured at 3 4 5 6 7 8 9 10 11 12.
+  exists b', (configured a (v_style s) t).
+  split; [exact H1|]. split; [exact H2|]. unfold configured.
   cbn [v_addr v_style v_state v_pages v_pending v_chunks v_w v_h v_type].
   repeat (split; [first [assumption|reflexivity|symmetry; apply surjective_pairing]|]).
   split; [|split; assumption].
@@ -918,7 +919,6 @@ Proof.
   exists b', (loaded s ps). split; [exact H1|]. split; [exact H2|].
   unfold loaded. cbn [v_addr v_style v_state v_pages v_pending v_chunks v_w v_h v_type].
   repeat split; try assumption; try reflexivity.
-  destruct (v_style s); reflexivity.
 Qed.
 
 Theorem closed_show : forall b a s fuel,
@@ -972,4 +972,114 @@ Proof.
   intros b a s fuel Hnd Ht Hst Hf.
   split; [unfold show_loaded_page|unfold load_next_page];
     apply (bus_switch_noop b a s fuel _ _ _ Hnd Ht Hst Hf).
+Qed.
+
+(* Sending again: the state reached by send_pages (and by the two page-flip operations)
+   meets the precondition of send_pages, and the new list replaces the old one. *)
+Theorem closed_repeat : forall b a ps1 ps2 s,
+  NoDup (map v_addr b) -> Forall VInv0 b -> target b a = Some s ->
+  receive_pixels_legal (v_state s) = true -> 0 < v_w s -> 0 < v_h s ->
+  total_bytes (v_w s) (v_h s) <= 65536 ->
+  Forall (fun p => p_w p = v_w s /\ p_h p = v_h s
+                   /\ nlen (p_bytes p) = total_bytes (v_w s) (v_h s)) ps1 ->
+  N.of_nat (length ps1) * (total_bytes (v_w s) (v_h s) / 16) < 65536 ->
+  Forall (fun p => p_w p = v_w s /\ p_h p = v_h s
+                   /\ nlen (p_bytes p) = total_bytes (v_w s) (v_h s)) ps2 ->
+  N.of_nat (length ps2) * (total_bytes (v_w s) (v_h s) / 16) < 65536 ->
+  exists b1 b2 s2,
+    run_bus (send_pages a ps1) b = (b1, Done (v_style s))
+    /\ run_bus (send_pages a ps2) b1 = (b2, Done (v_style s))
+    /\ target b2 a = Some s2 /\ v_pages s2 = ps2
+    /\ v_state s2 = match v_style s with Manual => PageLoaded | Automatic => ShowingPages end
+    /\ v_type s2 = v_type s /\ (v_w s2, v_h s2) = (v_w s, v_h s)
+    /\ Forall VInv0 b2 /\ map v_addr b2 = map v_addr b.
+Proof.
+  intros b a ps1 ps2 s Hnd Hinv Ht Hlegal Hw Hh HT Hps1 Hc1 Hps2 Hc2.
+  destruct (closed_send_pages b a ps1 s Hnd Hinv Ht Hlegal Hw Hh Hps1 HT Hc1)
+    as (b1 & s1 & R1 & T1 & _ & St1 & Ty1 & Dim1 & _ & _ & _ & Fs1 & Inv1 & Map1).
+  injection Dim1 as Ew Eh.
+  assert (Hlegal1 : receive_pixels_legal (v_state s1) = true)
+    by (rewrite St1; destruct (v_style s); reflexivity).
+  destruct (closed_send_pages b1 a ps2 s1) as
+      (b2 & s2 & R2 & T2 & P2 & St2 & Ty2 & Dim2 & _ & _ & _ & Fs2 & Inv2 & Map2);
+    rewrite ?Ew, ?Eh, ?Map1; try assumption.
+  exists b1, b2, s2. rewrite Fs1 in R2, St2. rewrite Ew, Eh in Dim2.
+  repeat split; try assumption; congruence.
+Qed.
+
+Theorem closed_resend_after_show : forall b a ps s fuel,
+  NoDup (map v_addr b) -> Forall VInv0 b -> target b a = Some s ->
+  v_state s = PageLoaded -> (3 <= fuel)%nat -> 0 < v_w s -> 0 < v_h s ->
+  total_bytes (v_w s) (v_h s) <= 65536 ->
+  Forall (fun p => p_w p = v_w s /\ p_h p = v_h s
+                   /\ nlen (p_bytes p) = total_bytes (v_w s) (v_h s)) ps ->
+  N.of_nat (length ps) * (total_bytes (v_w s) (v_h s) / 16) < 65536 ->
+  exists b1 b2 s2,
+    run_bus (show_loaded_page fuel a) b = (b1, Done tt)
+    /\ run_bus (send_pages a ps) b1 = (b2, Done (v_style s))
+    /\ target b2 a = Some s2 /\ v_pages s2 = ps
+    /\ v_state s2 = match v_style s with Manual => PageLoaded | Automatic => ShowingPages end
+    /\ Forall VInv0 b2 /\ map v_addr b2 = map v_addr b.
+Proof.
+  intros b a ps s fuel Hnd Hinv Ht Hst Hf Hw Hh HT Hps Hc.
+  destruct (closed_show b a s fuel Hnd Hinv Ht Hst Hf) as (b1 & R1 & T1 & Inv1 & Map1).
+  destruct (closed_send_pages b1 a ps (set_state s PageShown)) as
+      (b2 & s2 & R2 & T2 & P2 & St2 & _ & _ & _ & _ & _ & _ & Inv2 & Map2);
+    rewrite ?Map1; try assumption; try reflexivity.
+  exists b1, b2, s2. cbn [set_state v_style] in R2, St2.
+  repeat split; try assumption; congruence.
+Qed.
+
+Theorem closed_resend_after_load_next : forall b a ps s fuel,
+  NoDup (map v_addr b) -> Forall VInv0 b -> target b a = Some s ->
+  v_state s = PageShown -> (3 <= fuel)%nat -> 0 < v_w s -> 0 < v_h s ->
+  total_bytes (v_w s) (v_h s) <= 65536 ->
+  Forall (fun p => p_w p = v_w s /\ p_h p = v_h s
+                   /\ nlen (p_bytes p) = total_bytes (v_w s) (v_h s)) ps ->
+  N.of_nat (length ps) * (total_bytes (v_w s) (v_h s) / 16) < 65536 ->
+  exists b1 b2 s2,
+    run_bus (load_next_page fuel a) b = (b1, Done tt)
+    /\ run_bus (send_pages a ps) b1 = (b2, Done (v_style s))
+    /\ target b2 a = Some s2 /\ v_pages s2 = ps
+    /\ v_state s2 = match v_style s with Manual => PageLoaded | Automatic => ShowingPages end
+    /\ Forall VInv0 b2 /\ map v_addr b2 = map v_addr b.
+Proof.
+  intros b a ps s fuel Hnd Hinv Ht Hst Hf Hw Hh HT Hps Hc.
+  destruct (closed_load_next b a s fuel Hnd Hinv Ht Hst Hf) as (b1 & R1 & T1 & Inv1 & Map1).
+  destruct (closed_send_pages b1 a ps (set_state s PageLoaded)) as
+      (b2 & s2 & R2 & T2 & P2 & St2 & _ & _ & _ & _ & _ & _ & Inv2 & Map2);
+    rewrite ?Map1; try assumption; try reflexivity.
+  exists b1, b2, s2. cbn [set_state v_style] in R2, St2.
+  repeat split; try assumption; congruence.
+Qed.
+
+(* Configure, then send: for any bus, any address on it, any sign type, any prior state. *)
+Theorem closed_end_to_end : forall b a t ps,
+  NoDup (map v_addr b) -> Forall VInv0 b -> In a (map v_addr b) ->
+  Forall (fun p => p_w p = fst (dimensions t) /\ p_h p = snd (dimensions t)
+                   /\ nlen (p_bytes p)
+                      = total_bytes (fst (dimensions t)) (snd (dimensions t))) ps ->
+  N.of_nat (length ps) * (total_bytes (fst (dimensions t)) (snd (dimensions t)) / 16) < 65536 ->
+  exists b1 b2 s2 fs,
+    run_bus (configure a t) b = (b1, Done tt)
+    /\ run_bus (send_pages a ps) b1 = (b2, Done fs)
+    /\ target b2 a = Some s2 /\ v_pages s2 = ps /\ v_type s2 = Some t /\ fs = v_style s2
+    /\ v_state s2 = match fs with Manual => PageLoaded | Automatic => ShowingPages end
+    /\ (v_w s2, v_h s2) = dimensions t
+    /\ (forall s, target b a = Some s -> v_style s = fs)
+    /\ Forall VInv0 b2 /\ map v_addr b2 = map v_addr b.
+Proof.
+  intros b a t ps Hnd Hinv Hin Hps Hc.
+  destruct (closed_configure b a t Hnd Hinv Hin)
+    as (b1 & s1 & R1 & T1 & St1 & Ty1 & Dim1 & _ & _ & _ & _ & Fs1 & Inv1 & Map1).
+  destruct (dims_ok' t) as (HT & Hw & Hh).
+  assert (Ew : v_w s1 = fst (dimensions t)) by (rewrite <- Dim1; reflexivity).
+  assert (Eh : v_h s1 = snd (dimensions t)) by (rewrite <- Dim1; reflexivity).
+  destruct (closed_send_pages b1 a ps s1) as
+      (b2 & s2 & R2 & T2 & P2 & St2 & Ty2 & Dim2 & _ & _ & _ & Fs2 & Inv2 & Map2);
+    rewrite ?Ew, ?Eh, ?Map1, ?St1; try assumption; try reflexivity.
+  exists b1, b2, s2, (v_style s1).
+  rewrite Ew, Eh in Dim2.
+  repeat split; try assumption; try congruence.
+  intros s Hs. symmetry. exact (Fs1 s Hs).
 Qed.
